@@ -497,8 +497,8 @@ def run_check(prop: str, tier: str, seed: int, replay: str | None = None) -> int
         "distinct_nontrivial": len(nontrivial),
         "traces_validated_against_impl": sum(1 for v in verdicts if v["status"] in ("ok",)),
         "rule": mod.RULE,
-        "samples": json.loads(json.dumps(samples)[:20000]) if len(json.dumps(samples)) < 20000 else
-        [{"case": json.dumps(cases[0])[:4000]}],
+        "samples": samples if len(json.dumps(samples)) < 30000 else
+        [{"case_truncated_json": json.dumps(cases[0])[:4000], "verdict": verdicts[0]}],
         "distribution": dist,
         "disagreements_checked": len(disagree),
         "known_findings_matched": {k: len(v[1]) for k, v in known_hits.items()},
